@@ -1116,6 +1116,10 @@ def _body_facts(self):
             else:
                 if c[0] == 'discr':
                     rel = ('discr', deep_strip(c[1]), truth)
+                    # `match a.cmp(&b) { Less | Equal | Greater }`: the variant of the Ordering IS the comparison
+                    oc = deep_strip(c[1])
+                    if oc[0] == 'call' and len(oc[2]) == 2 and canon(oc[1]).split("::")[-1] == "cmp" and re.search(r"\bOrd\b", str(oc[1])) and truth in _ORDERING:
+                        facts.append({"u": bb, "v": tgt, "rel": ('cmp', _ORDERING[truth], _unref(oc[2][0]), _unref(oc[2][1]))})
                     # signed -> (at least as wide) unsigned conversion fails exactly for negative values
                     sg = _signed_to_unsigned(deep_strip(c[1]))
                     if sg is not None and truth in (0, 1):
@@ -1135,6 +1139,15 @@ def _body_facts(self):
             facts.append({"u": bb, "v": tgt, "rel": rel})
             for r2 in _empty_len_twin(rel):
                 facts.append({"u": bb, "v": tgt, "rel": r2})
+        # the otherwise edge of a match on an Ordering: the comparison that is left over
+        if edges and edges[-1][1] is None and c[0] == 'discr':
+            oc = deep_strip(c[1])
+            if oc[0] == 'call' and len(oc[2]) == 2 and canon(oc[1]).split("::")[-1] == "cmp" and re.search(r"\bOrd\b", str(oc[1])):
+                left = {"Lt", "Eq", "Gt"} - {_ORDERING[v] for _t, v in edges[:-1] if v in _ORDERING}
+                op = {frozenset(["Lt"]): "Lt", frozenset(["Eq"]): "Eq", frozenset(["Gt"]): "Gt", frozenset(["Lt", "Eq"]): "Le",
+                      frozenset(["Gt", "Eq"]): "Ge", frozenset(["Lt", "Gt"]): "Ne"}.get(frozenset(left))
+                if op:
+                    facts.append({"u": bb, "v": edges[-1][0], "rel": ('cmp', op, _unref(oc[2][0]), _unref(oc[2][1]))})
         # the otherwise edge of a non-bool switch: value differs from every listed one
         if edges and edges[-1][1] is None:
             for (tgt, val) in edges[:-1]:
@@ -1142,6 +1155,9 @@ def _body_facts(self):
                     facts.append({"u": bb, "v": edges[-1][0], "rel": ('cmp', 'Ne', c, ('const', val))})
     self._facts = facts
     return facts
+
+
+_ORDERING = {255: "Lt", -1: "Lt", 0: "Eq", 1: "Gt"}      # discriminants of core::cmp::Ordering as the switch shows them (i8)
 
 
 def _discr_twins(x, v, depth=0):
